@@ -33,7 +33,7 @@ def run(ctx):
         ctx.broken("behaviour generation produced only %d behaviours" % len(beh))
     gc = ctx.tlc(SPEC, "Gen_RelayConfirm", cfg=ctx.pick("Gen_Confirm3", "Gen_Confirm4"), workers=1, label="Gen_Confirm", dump_trace=False)
     cases = ctx.read_emitted(gc, "confirm.ndjson")
-    if len(cases) < 50:
+    if len(cases) < 40:
         ctx.broken("confirm case generation produced only %d cases" % len(cases))
     ctx.note("dedup behaviours: %d, confirm cases: %d" % (len(beh), len(cases)))
     go = ctx.gotest("pkg/beacon/event", "^TestVerif_C06_(Replay|Concurrent)$", ["c06_test.go"],
